@@ -456,17 +456,31 @@ pub fn bcint_key(v: &BcView, i: usize) -> String {
         L::Imm(x) if x == v.mask() => "-1".to_string(),
         L::Imm(_) => "i".to_string(),
     };
+    let cell = |l: L| match l {
+        L::Mem(m) | L::MemZero(m) => Some(m),
+        _ => None,
+    };
+    let alias = |d: L, a: L, b: L| {
+        let mut s = String::new();
+        if cell(a).is_some() && cell(a) == cell(b) {
+            s.push_str(" a~b");
+        }
+        if cell(d).is_some() && cell(d) == cell(b) && d != a {
+            s.push_str(" d~b");
+        }
+        s
+    };
     match inst {
         I::Noop => "noop".into(),
-        I::Scan(_, s) => format!("scan{}", if s < 0 { "L" } else if s > 0 { "R" } else { "0" }),
+        I::Scan(_, s) => format!("scan{} stride{}", if s < 0 { "L" } else if s > 0 { "R" } else { "0" }, s.unsigned_abs().min(4)),
         I::Mov(s) => format!("mov{}", if s < 0 { "L" } else { "R" }),
         I::Inp(_) => "inp".into(),
         I::Out(_) => "out".into(),
         I::BrZ(..) => "brz".into(),
         I::BrNZ(..) => "brnz".into(),
-        I::Add(d, a, b) => format!("add {} {} {}{}", cls(d), cls(a), cls(b), if d == a { " inplace" } else { "" }),
-        I::Sub(d, a, b) => format!("sub {} {} {}{}", cls(d), cls(a), cls(b), if d == a { " inplace" } else { "" }),
-        I::Mul(d, a, b) => format!("mul {} {} {}{}", cls(d), cls(a), cls(b), if d == a { " inplace" } else { "" }),
+        I::Add(d, a, b) => format!("add {} {} {}{}{}", cls(d), cls(a), cls(b), if d == a { " inplace" } else { "" }, alias(d, a, b)),
+        I::Sub(d, a, b) => format!("sub {} {} {}{}{}", cls(d), cls(a), cls(b), if d == a { " inplace" } else { "" }, alias(d, a, b)),
+        I::Mul(d, a, b) => format!("mul {} {} {}{}{}", cls(d), cls(a), cls(b), if d == a { " inplace" } else { "" }, alias(d, a, b)),
         I::Copy(d, a) => format!("copy {} {}", cls(d), cls(a)),
     }
 }
